@@ -128,7 +128,12 @@ class ModulusPack:
         good = -1
         # find nearest bitsize >= preferred
         for b in bitsizes:
-            if (b >= prefer) and (b <= max) and (b < good or good == -1):
+            if (
+                (b >= prefer)
+                and (b >= min)
+                and (b <= max)
+                and (b < good or good == -1)
+            ):
                 good = b
         # if that failed, find greatest bitsize >= min
         if good == -1:
